@@ -164,6 +164,9 @@ func (b *c3Body) Read(p []byte) (int, error) {
 	if b.pos < len(b.data) {
 		k := copy(p, b.data[b.pos:])
 		b.pos += k
+		if b.pos == len(b.data) && b.end == "cancel" && b.cancel != nil {
+			b.cancel() // the caller goes away at the very moment the last scripted byte was served
+		}
 		return k, nil
 	}
 	switch b.end {
@@ -666,7 +669,18 @@ func c3RunAttempt(t *testing.T, c *c3Case, a *c3Attempt, models string, countOut
 			ctx, cancel := context.WithCancel(context.Background())
 			defer cancel()
 			net.cancel = cancel
+			verifying := 0
 			err := PullModel(ctx, c3ModelName(c.name), &registryOptions{}, func(r api.ProgressResponse) {
+				// scripted caller cancellation at a progress callback
+				switch {
+				case r.Status == "pulling manifest" && a.cancel == "start",
+					r.Status == "writing manifest" && a.cancel == "writing",
+					r.Status == "verifying sha256 digest" && a.cancel == fmt.Sprintf("verifying %d", verifying):
+					cancel()
+				}
+				if r.Status == "verifying sha256 digest" {
+					verifying++
+				}
 				if len(res.statuses) == 0 || res.statuses[len(res.statuses)-1] != r.Status {
 					res.statuses = append(res.statuses, r.Status)
 				}
